@@ -114,9 +114,9 @@ theorem stable_importOne (W : World U) (S : Stable U P NF) {s : St} (h : P s) {b
       simp only
       by_cases hk : known s b.id = true
       · simp only [hk, if_true]
-        by_cases hge : hb.number ≥ b.number
-        · simp only [hge, if_true]; exact ⟨fun _ => h, fun _ => by simp⟩
-        · simp only [hge, if_false]
+        by_cases hskip : (decide (hb.number ≥ b.number) && !heavierThan s b localTd) = true
+        · rw [if_pos hskip]; exact ⟨fun _ => h, fun _ => by simp⟩
+        · rw [if_neg hskip]
           by_cases hps : s.hasState b.parent = true
           · simp only [hps, if_true]
             exact S.wbws s b p _ h hbU hpar hps
